@@ -11,10 +11,11 @@ const (
 	oLost      = 0 // no reply: the transport returns an error
 	oTruncated = 1 // a valid reply cut short
 	oCorrupt   = 2 // a valid reply with a corrupted checksum (session-less) / AuthCode (in-session)
-	oReply     = 3 // 3.. : a valid reply with completion code vCodes[o-3]
+	oStray     = 3 // a valid (in-session: authentic) reply to a different command or NetFn
+	oReply     = 4 // 4.. : a valid reply with completion code 00, C0, C3, or any other code
 )
 
-var vCodes = []byte{0x00, 0xC0, 0xC3, 0xC1, 0xD4}
+const vNumCodes = 4
 
 // refRetry is the reference model of the documented retry behaviour (C10): temporary
 // codes (0xC0, 0xC3) and undecodable replies are retried; session-less lost replies are
@@ -28,7 +29,6 @@ type refRetry struct {
 	datagrams int
 	validRsp  int // replies that decoded to a message (per C18: responses counter)
 	ctxDone   bool
-	rspByCode [5]int
 	bodyShort bool // the final reply's body does not decode as the command's response
 }
 
@@ -41,6 +41,9 @@ type vRetryDriver struct {
 	cancel     context.CancelFunc
 	buildReply func(cc byte) []byte
 	corrupt    func(valid []byte) []byte
+	// stray builds a well-formed reply (completion code 00) that belongs to another
+	// command: the command number or the network function differs from the request's
+	stray func(dNetFn, dCmd byte) []byte
 }
 
 func (d *vRetryDriver) reply(attempt int, req []byte) ([]byte, error) {
@@ -51,7 +54,7 @@ func (d *vRetryDriver) reply(attempt int, req []byte) ([]byte, error) {
 		d.cancel()
 		d.ref.ctxDone = true
 	}
-	o := vChoice(oReply + len(vCodes))
+	o := vChoice(oReply + vNumCodes)
 	switch {
 	case o == oLost:
 		if d.ref.inSession {
@@ -65,10 +68,36 @@ func (d *vRetryDriver) reply(attempt int, req []byte) ([]byte, error) {
 		return v[:c:c], nil
 	case o == oCorrupt:
 		return d.corrupt(d.buildReply(0x00)), nil
+	case o == oStray:
+		// C11: a duplicated, delayed or unsolicited reply to something else is not this
+		// command's response: it is ignored like an undecodable reply and the command retried
+		x := vByte()
+		if vBool() {
+			vAssume(x != 0)
+			return d.stray(0, x), nil
+		}
+		if d.ref.inSession {
+			// the same command with the request-direction NetFn (an echoed request)
+			return d.stray(0x01, 0), nil
+		}
+		vAssume(x&0x3f != 0)
+		return d.stray(x&0x3f, 0), nil
 	}
-	cc := vCodes[o-oReply]
+	var cc byte
+	switch o - oReply {
+	case 0:
+		cc = 0x00
+	case 1:
+		cc = 0xC0
+	case 2:
+		cc = 0xC3
+	default:
+		// every other completion code is final, whatever its value
+		cc = vByte()
+		vAssume(cc != 0xC0)
+		vAssume(cc != 0xC3)
+	}
 	d.ref.validRsp++
-	d.ref.rspByCode[o-oReply]++
 	if cc != 0xC0 && cc != 0xC3 {
 		d.ref.finished, d.ref.code = true, cc
 	}
@@ -89,6 +118,10 @@ func (d *vRetryDriver) vCheckOutcome(code ipmi.CompletionCode, err error, sent i
 		vReached("?completed")
 	} else {
 		vAssert(err != nil, "c10-no-success-without-a-final-reply")
+		if !d.ref.finished {
+			// nothing final has arrived: the library may only give up because the context ended
+			vAssert(d.ref.ctxDone, "c10-keeps-retrying-until-the-context-ends")
+		}
 		vReached("?failed")
 	}
 }
@@ -148,6 +181,9 @@ func VerifRetry_Sessionless() {
 		}
 		m := refBuildMsg(0x81, netFn|1, 0, 0x20, 1, lun, cmdNo, data)
 		return refSessionless(0x00, m)
+	}
+	d.stray = func(dNetFn, dCmd byte) []byte {
+		return refSessionless(0x00, refBuildMsg(0x81, (netFn|1)^dNetFn, 0, 0x20, 1, lun, cmdNo^dCmd, []byte{0x00}))
 	}
 	d.corrupt = func(v []byte) []byte {
 		x := vByte()
@@ -212,6 +248,10 @@ func VerifRetry_Session() {
 			}
 		}
 		m := refBuildMsg(0x81, netFn|1, 0, 0x20, 1, lun, cmdNo, data)
+		return refSessionPacket(vs.sess.LocalID, bmcSeq, integ, vs.k1, vs.k2, vBytes(16), m)
+	}
+	d.stray = func(dNetFn, dCmd byte) []byte {
+		m := refBuildMsg(0x81, (netFn|1)^dNetFn, 0, 0x20, 1, lun, cmdNo^dCmd, []byte{0x00})
 		return refSessionPacket(vs.sess.LocalID, bmcSeq, integ, vs.k1, vs.k2, vBytes(16), m)
 	}
 	d.corrupt = func(v []byte) []byte {
